@@ -203,17 +203,20 @@ def compare_ops(col, ddf, case, bxs, geom_cols, sjoin_ok, deep=True):
     # ---- sjoin (left geometry must be points)
     if sjoin_ok:
         right = right_frame()
-        for how in ("inner", "left"):
+        right2 = right.assign(val=[7, 8, 9])            # a column name that clashes with the left frame
+        for how, kw, rf in (("inner", {}, right), ("left", {}, right),
+                            (("inner", "left")[len(P) % 2], {"lsuffix": "L", "rsuffix": "R"}, right2)):
             try:
                 col.count("evaluations")
-                dj = sjoin(ddf, right, how=how).compute(scheduler=S)
-                pj = sjoin(P, right, how=how)
+                dj = sjoin(ddf, rf, how=how, **kw).compute(scheduler=S)
+                pj = sjoin(P, rf, how=how, **kw)
                 _, drows = frame_rows(dj, set(geom_cols) & set(dj.columns))
                 _, prow = frame_rows(pj, set(geom_cols) & set(pj.columns))
                 if sorted(map(repr, drows)) != sorted(map(repr, prow)) or sorted(dj.columns) != sorted(pj.columns):
-                    col.violation(f"sjoin.{how}", case, f"dask sjoin rows {sorted(map(repr, drows))[:4]} vs pandas {sorted(map(repr, prow))[:4]}")
+                    col.violation(f"sjoin.{how}", dict(case, sjoin_kwargs=kw), f"dask sjoin{kw or ''} columns {list(dj.columns)} rows {sorted(map(repr, drows))[:4]} vs pandas "
+                                  f"{list(pj.columns)} {sorted(map(repr, prow))[:4]}")
             except Exception as ex:
-                col.violation(f"sjoin.{how}.raises", case, f"{type(ex).__name__}: {str(ex)[:200]}")
+                col.violation(f"sjoin.{how}.raises", dict(case, sjoin_kwargs=kw), f"{type(ex).__name__}: {str(ex)[:200]}")
     col.outcome(f"nparts={min(ddf.npartitions, 7)}")
 
 
@@ -283,6 +286,20 @@ def explore_base(col, bi, n, k, thorough, scratch, seed):
         if r._meta.geometry.name != act:
             col.violation("parquet.active", case, f"active {r._meta.geometry.name} expected {act}")
         compare_ops(col, r, case, bxs[::2], geom_cols, (BASES[bi][0] if act == "act" else BASES[bi][2]) == "point", deep=False)
+    # column projections, in orders other than the file's ("other", "val", "act")
+    for cols, geometry in ((["act", "val", "other"], None), (["val", "other", "act"], "act"), (["act", "val"], None),
+                           (["val", "act", "other"], "other")):
+        case = {"base": bi, "n": n, "npartitions": k, "provenance": "parquet_columns", "geometry": geometry, "columns": cols}
+        try:
+            r = read_parquet_dask(path, columns=cols, geometry=geometry)
+        except Exception as ex:
+            col.violation("read_parquet_dask.raises", case, f"{type(ex).__name__}: {str(ex)[:200]}")
+            continue
+        gc = [c for c in cols if c in geom_cols]
+        act = geometry or gc[0]          # default = first geometry column of the requested frame
+        if r._meta.geometry.name != act or list(r.columns) != cols:
+            col.violation("parquet.active", case, f"columns {list(r.columns)} active {r._meta.geometry.name}; expected {cols} active {act}")
+        compare_ops(col, r, case, bxs[::3], set(gc), (BASES[bi][0] if act == "act" else BASES[bi][2]) == "point", deep=False)
     for b in bxs[::5]:
         case = {"base": bi, "n": n, "npartitions": k, "provenance": "parquet_bounds", "geometry": "act", "bounds": list(b)}
         try:
@@ -451,7 +468,9 @@ def replay(ctx, case):
     else:
         path = os.path.join(scratch, "replay.parq")
         ddf.to_parquet(path, overwrite=True)
-        r = read_parquet_dask(path, geometry=case.get("geometry"), bounds=tuple(case["bounds"]) if case.get("bounds") else None)
-        act = case.get("geometry") or "other"
-        compare_ops(col, r, case, bxs, {"act", "other"}, (BASES[bi][0] if act == "act" else BASES[bi][2]) == "point")
+        r = read_parquet_dask(path, geometry=case.get("geometry"), bounds=tuple(case["bounds"]) if case.get("bounds") else None,
+                              **({"columns": case["columns"]} if case.get("columns") else {}))
+        gc = [c for c in (case.get("columns") or ["other", "act"]) if c in ("act", "other")]
+        act = case.get("geometry") or gc[0]
+        compare_ops(col, r, case, bxs, set(gc), (BASES[bi][0] if act == "act" else BASES[bi][2]) == "point")
     return col.violations
